@@ -19,6 +19,7 @@ package requestcontext
 import (
 	"net/http"
 	"net/url"
+	"strings"
 
 	"github.com/dadrus/heimdall/internal/x"
 )
@@ -44,13 +45,13 @@ func extractURL(req *http.Request) *url.URL {
 		// the value is a request target, but not a URI reference. That is, a value starting with two
 		// slashes is a path, and must not be interpreted as a reference having an authority, but no scheme
 		if forwardedURI, err := url.ParseRequestURI(val); err == nil {
-			rawPath = forwardedURI.EscapedPath()
+			rawPath = escapedPath(forwardedURI)
 			query = forwardedURI.RawQuery
 		}
 	}
 
 	if len(rawPath) == 0 {
-		rawPath = req.URL.EscapedPath()
+		rawPath = escapedPath(req.URL)
 	}
 
 	if len(query) == 0 {
@@ -65,5 +66,46 @@ func extractURL(req *http.Request) *url.URL {
 		Path:     path,
 		RawPath:  rawPath,
 		RawQuery: query,
+	}
+}
+
+// escapedPath returns the path as received. url.URL.EscapedPath cannot be used for that purpose, as it
+// does not return the raw path if it contains characters, which have to be encoded (e.g. '{' or '|'),
+// but encodes the already decoded path instead. That way, encoded slashes present in the received
+// path would be replaced by regular ones. So, in such cases only the characters in question are encoded.
+func escapedPath(u *url.URL) string {
+	escaped := u.EscapedPath()
+	if len(u.RawPath) == 0 || escaped == u.RawPath {
+		return escaped
+	}
+
+	var sb strings.Builder
+
+	sb.Grow(len(u.RawPath))
+
+	for i := 0; i < len(u.RawPath); i++ {
+		char := u.RawPath[i]
+
+		if char == '%' || isAllowedInPath(char) {
+			sb.WriteByte(char)
+		} else {
+			sb.WriteByte('%')
+			sb.WriteByte(upperHex[char>>4])  //nolint:mnd
+			sb.WriteByte(upperHex[char&0xf]) //nolint:mnd
+		}
+	}
+
+	return sb.String()
+}
+
+const upperHex = "0123456789ABCDEF"
+
+func isAllowedInPath(char byte) bool {
+	switch {
+	case 'a' <= char && char <= 'z', 'A' <= char && char <= 'Z', '0' <= char && char <= '9':
+		return true
+	default:
+		// unreserved, sub-delims, as well as those, which are allowed in path segments
+		return strings.IndexByte("-._~!$&'()*+,;=:@/[]", char) >= 0
 	}
 }
